@@ -70,11 +70,15 @@ Proof. reflexivity. Qed.
 
 Lemma rotation_failure_IdsOk s : IdsOk s -> IdsOk (rotation_create_fails s).
 Proof.
-  intros [Hinc Hlt]. split; [exact Hinc|].
-  intros Ho b Hb. change (blobs_in_order (rotation_create_fails s)) with (blobs_in_order s) in Hb.
-  change (s_open (rotation_create_fails s)) with (s_open s) in Ho.
-  change (s_next (rotation_create_fails s)) with (s_next s + 1).
-  specialize (Hlt Ho b Hb). lia.
+  intros (Hinc & Hlt & H3 & H4 & H5 & H6). split; [exact Hinc|]. split; [|split; [|split; [exact H4|split; [exact H5|exact H6]]]].
+  - intros Ho b Hb. change (blobs_in_order (rotation_create_fails s)) with (blobs_in_order s) in Hb.
+    change (s_open (rotation_create_fails s)) with (s_open s) in Ho.
+    change (s_next (rotation_create_fails s)) with (s_next s + 1).
+    specialize (Hlt Ho b Hb). lia.
+  - intros Ho q Hq. change (s_quar (rotation_create_fails s)) with (s_quar s) in Hq.
+    change (s_open (rotation_create_fails s)) with (s_open s) in Ho.
+    change (s_next (rotation_create_fails s)) with (s_next s + 1).
+    specialize (H3 Ho q Hq). lia.
 Qed.
 
 Lemma rotation_failure_Inv K s : Inv K s -> Inv K (rotation_create_fails s).
